@@ -113,22 +113,42 @@ func doConcShape(repo, out string) error {
 	// --- connection.stop order
 	stopOrder := false
 	if fd := meth["connection.stop"]; fd != nil {
-		posLeave, posClose, posConn := token.NoPos, token.NoPos, token.NoPos
+		// the statements of stop() itself plus those of connection methods it calls or passes as a method value
+		// (e.g. `c.stopOnce.Do(c.shutdown)`), in source order of the bodies visited
+		var bodies []*ast.BlockStmt
+		seenM := map[string]bool{"stop": true}
+		bodies = append(bodies, fd.Body)
 		ast.Inspect(fd.Body, func(n ast.Node) bool {
-			if ce, ok := n.(*ast.CallExpr); ok {
-				fn := exprString(ce.Fun)
-				switch {
-				case strings.HasSuffix(fn, ".leaveFunc") && posLeave == token.NoPos:
-					posLeave = ce.Pos()
-				case fn == "close" && len(ce.Args) == 1 && strings.HasSuffix(exprString(ce.Args[0]), "stopChan") && posClose == token.NoPos:
-					posClose = ce.Pos()
-				case strings.HasSuffix(fn, ".conn.Close") && posConn == token.NoPos:
-					posConn = ce.Pos()
+			if se, ok := n.(*ast.SelectorExpr); ok {
+				if id, ok := se.X.(*ast.Ident); ok && id.Name == "c" {
+					if m := meth["connection."+se.Sel.Name]; m != nil && !seenM[se.Sel.Name] {
+						seenM[se.Sel.Name] = true
+						bodies = append(bodies, m.Body)
+					}
 				}
 			}
 			return true
 		})
-		stopOrder = posLeave != token.NoPos && posClose != token.NoPos && posConn != token.NoPos && posLeave < posClose && posLeave < posConn
+		order := 0
+		posLeave, posClose, posConn := -1, -1, -1
+		for _, b := range bodies {
+			ast.Inspect(b, func(n ast.Node) bool {
+				if ce, ok := n.(*ast.CallExpr); ok {
+					order++
+					fn := exprString(ce.Fun)
+					switch {
+					case strings.HasSuffix(fn, ".leaveFunc") && posLeave < 0:
+						posLeave = order
+					case fn == "close" && len(ce.Args) == 1 && strings.HasSuffix(exprString(ce.Args[0]), "stopChan") && posClose < 0:
+						posClose = order
+					case strings.HasSuffix(fn, ".conn.Close") && posConn < 0:
+						posConn = order
+					}
+				}
+				return true
+			})
+		}
+		stopOrder = posLeave >= 0 && posClose >= 0 && posConn >= 0 && posLeave < posClose && posLeave < posConn
 	}
 	// --- reader sends
 	plainSend := func(fd *ast.FuncDecl, ch string) bool {
@@ -174,8 +194,13 @@ func doConcShape(repo, out string) error {
 				cc := c.(*ast.CommClause)
 				if cc.Comm == nil {
 					if len(cc.Body) == 1 {
-						if _, ok := cc.Body[0].(*ast.ReturnStmt); ok {
+						switch x := cc.Body[0].(type) {
+						case *ast.ReturnStmt:
 							defRet = true
+						case *ast.BranchStmt: // `break <label>` / `goto <label>`: leaves the loop as well
+							if x.Label != nil && (x.Tok == token.BREAK || x.Tok == token.GOTO) {
+								defRet = true
+							}
 						}
 					}
 					continue
